@@ -408,6 +408,14 @@ class Discharger:
                             av = [a.get("int") for a in tt["args"]]
                             if len(av) >= 2 and av[0] in (0, 1) and av[1] == 9999:
                                 return True
+        # `match dt.year() { 0..=9999 => dt.to_rfc2822(), .. }`: the year is a call result compared with the two bounds
+        for (e, tr, g) in facts:
+            for mm in re.finditer(r"call@(\d+):<chrono::DateTime<Tz> as chrono::Datelike>::year", e):
+                yt = fn.blocks[int(mm.group(1))]["term"]
+                if yt["t"] == "call" and S.val(yt["args"][0]).lstrip("&*") == recv:
+                    lo, hi, ex = interval_of(facts, mm.group(0))
+                    if lo is not None and hi is not None and lo >= 0 and hi <= 9999:
+                        return True
         yexpr = [e for (e, tr, g) in facts if "Datelike>::year(" in e]
         for e in yexpr:
             mm = re.search(r"(<chrono::DateTime<Tz> as chrono::Datelike>::year\([^()]*(\([^()]*\))*[^()]*\))", e)
@@ -533,6 +541,17 @@ class Discharger:
             for (e, truth, g) in facts:
                 if truth is False and e.endswith("::is_empty(%s)" % coll):
                     return ("LEN-DOM", "index 0 dominated by !is_empty() in bb%d" % g)
+        # POSITION-IDX: ix is the Some payload of Iterator::position / rposition over an iterator of the very collection being indexed
+        m = re.fullmatch(r"call@(\d+):.*Iterator>?::(position|rposition)@Some\.0", ix)
+        if m and coll:
+            t = S.fn.blocks[int(m.group(1))]["term"]
+            if t["t"] == "call":
+                def core(x):
+                    x = re.sub(r"<std::vec::Vec<T, A> as std::ops::Deref(Mut)?>::deref(_mut)?|core::slice::<impl \[T\]>::iter(_mut)?|<I as std::iter::IntoIterator>::into_iter", "", x)
+                    return re.sub(r"[&*()]", "", x)
+                recv = S.val(t["args"][0])
+                if core(coll) and core(recv) == core(coll) and "Iterator::" not in recv.replace("Iterator::position", ""):
+                    return ("POSITION-IDX", "index is the position of an element found by iterating the same collection (in bounds by contract)")
         return None
 
     def _lifted(self, closure):
